@@ -240,3 +240,108 @@ def jobs(tier, ws):
                       replay=make_replay(fn, hp, ncx_c), function_label=fn,
                       arbiter=r'float to (signed|unsigned) integer type conversion'))
     return js
+
+
+# ---------------------------------------------------------------------------------------------
+# array conversions: ncmpix_[pad_]getn_/putn_  (bounded: NELEMS elements, loop fully unwound)
+NELEMS = 3
+
+def gen_array(ws, fn, pad, dirn, X, T, nparams, ncx_c, is_static):
+    ctype, mbits, mkind, mfill = MEM[T]
+    xbits, xkind = EXT[X]
+    n = xbits // 8
+    total = NELEMS * n
+    padn = (4 - total % 4) % 4 if pad else 0
+    el = []
+    for i in range(NELEMS):
+        xptr = '(xbuf + %d)' % (i * n)
+        if dirn == 'put':
+            acc, rej, exact, can_erange = spec_clauses(mbits, mkind, '(tbuf[%d])' % i, xbits, xkind, ext_value(X, xptr))
+            filleq = '(spec_be(%s, %d) == spec_le(fillv, %d))' % (xptr, n, n)
+        else:
+            acc, rej, exact, can_erange = spec_clauses(xbits, xkind, ext_value(X, '(xin + %d)' % (i * n)), mbits, mkind, '(tbuf[%d])' % i)
+            if mkind == 'f':
+                fb = 'spec_f2bits' if mbits == 32 else 'spec_d2bits'
+                filleq = '(%s(tbuf[%d]) == %s(%s))' % (fb, i, fb, mfill)
+            else:
+                filleq = '(tbuf[%d] == (%s)%s)' % (i, ctype, mfill)
+        el.append((acc, rej, exact, filleq))
+    src = []
+    A = src.append
+    A('/* generated by jobs/C09.py for %s (%d elements) */' % (fn, NELEMS))
+    A('#include <config.h>\n#include <stddef.h>\n#include <string.h>\n#include <pnetcdf.h>\n#include "ncx.h"\n#include "conv_spec.h"')
+    A('#pragma CPROVER check push\n#pragma CPROVER check disable "conversion"')
+    A('typedef %s T;' % ctype)
+    A('static unsigned char xbuf[%d], xin[%d], fillv[8]; static T tbuf[%d]; void *g_xp;' % (total + padn + 4, total + padn + 4, NELEMS))
+    for i, (acc, rej, exact, filleq) in enumerate(el):
+        A('#define ACC%d %s\n#define REJ%d %s\n#define EXACT%d %s\n#define FILLEQ%d %s' % (i, acc, i, rej, i, exact, i, filleq))
+    anyrej = ' || '.join('REJ%d' % i for i in range(NELEMS))
+    allacc = ' && '.join('ACC%d' % i for i in range(NELEMS))
+    fnm = ('__CPROVER_file_local_ncx_c_' if is_static else '') + fn
+    if dirn == 'put':
+        params = 'void **xpp, MPI_Offset nelems, const T *tp, void *fillp'
+    else:
+        params = 'const void **xpp, MPI_Offset nelems, T *tp' + (', void *fillp' if nparams == 4 else '')
+    A('int %s(%s)' % (fnm, params))
+    A('__CPROVER_requires(nelems == %d && *xpp == xbuf && tp == tbuf%s)' % (NELEMS, ' && fillp == fillv' if (dirn == 'put' or nparams == 4) else ''))
+    if dirn == 'get' and xkind == 'f' and mkind != 'f' and mbits == 64:
+        A('#ifdef EXCLUDE_F16')
+        for i in range(NELEMS):
+            A('__CPROVER_requires(((double)%s) != %s)' % (ext_value(X, '(xbuf + %d)' % (i * n)), dbl(1 << (63 if mkind == 's' else 64))))
+        A('#endif')
+    A('__CPROVER_assigns(*xpp, %s)' % ('__CPROVER_object_whole(xbuf)' if dirn == 'put' else '__CPROVER_object_whole(tbuf)'))
+    A('__CPROVER_ensures(__CPROVER_return_value == NC_NOERR || __CPROVER_return_value == NC_ERANGE) /*@retcode*/')
+    A('__CPROVER_ensures(IMPLIES(%s, __CPROVER_return_value == NC_ERANGE)) /*@unrepresentable_element_reported*/' % anyrej)
+    A('__CPROVER_ensures(IMPLIES(%s, __CPROVER_return_value == NC_NOERR)) /*@all_representable_no_error*/' % allacc)
+    for i in range(NELEMS):
+        A('__CPROVER_ensures(REJ%d ? FILLEQ%d : ACC%d ? (EXACT%d) : ((EXACT%d) || FILLEQ%d)) /*@element_%d_converted_or_filled_whatever_the_others*/' % (i, i, i, i, i, i, i))
+    A('__CPROVER_ensures(*xpp == (void *)(xbuf + %d)) /*@pointer_advanced_by_elements_and_padding*/' % (total + padn))
+    if dirn == 'put' and padn:
+        A('__CPROVER_ensures(%s) /*@padding_bytes_zero*/' % ' && '.join('xbuf[%d] == 0' % (total + k) for k in range(padn)))
+    A(';')
+    A('unsigned char nondet_uchar(void);')
+    A('void harness(void) {')
+    A('  __CPROVER_havoc_slice(xbuf, sizeof(xbuf)); __CPROVER_havoc_slice(fillv, 8); __CPROVER_havoc_slice(tbuf, sizeof(tbuf));')
+    A('  memcpy(xin, xbuf, sizeof(xbuf));')
+    if dirn == 'put':
+        A('  void *xp = xbuf; int r = %s(&xp, %d, tbuf, fillv);' % (fnm, NELEMS))
+    else:
+        A('  const void *xp = xbuf; int r = %s(&xp, %d, tbuf%s);' % (fnm, NELEMS, ', fillv' if nparams == 4 else ''))
+    A('  __CPROVER_assert(r != NC_NOERR, "canary:noerr");')
+    if el[0][3] is not None and any(e[1] != '0' and e[1] != '(!1)' for e in el) and can_erange:
+        A('  __CPROVER_assert(r != NC_ERANGE, "canary:erange");')
+    A('}')
+    d = os.path.join(ws.dir, 'C09gen')
+    os.makedirs(d, exist_ok=True)
+    p = os.path.join(d, 'h_%s.c' % fn)
+    open(p, 'w').write('\n'.join(src))
+    return p, bool(can_erange)
+
+
+def list_array_functions(ws, ncx_c):
+    rc, txt, se, _ = sh(['gcc', '-E', '-P', '-DHAVE_CONFIG_H', '-I' + ws.geninc(), '-I%s/src/include' % REPO,
+                         '-I%s/src/drivers/include' % REPO, '-I%s/src/drivers/common' % REPO,
+                         '-I/usr/lib/x86_64-linux-gnu/openmpi/include', ncx_c], 120)
+    out = []
+    for m in re.finditer(r'^(?:static\s+)?int\s+(ncmpix_(pad_)?(putn|getn)_NC_([A-Z0-9]+)_([a-z]+))\(([^)]*)\)\s*\{', txt, re.M):
+        if m.group(4) in EXT and m.group(5) in MEM:
+            out.append((m.group(1), bool(m.group(2)), 'put' if m.group(3) == 'putn' else 'get', m.group(4), m.group(5), len(m.group(6).split(',')), m.group(0).startswith('static')))
+    return out
+
+
+_scalar_jobs = jobs
+
+def jobs(tier, ws):
+    js = _scalar_jobs(tier, ws)
+    ncx_c = ws.source('src/drivers/common/ncx.m4')
+    arr = list_array_functions(ws, ncx_c)
+    if len(arr) < 200:
+        raise Infra('only %d array conversion functions found in regenerated ncx.c (expected ~320)' % len(arr))
+    for fn, pad, dirn, X, T, npar, is_static in arr:
+        hp, can_erange = gen_array(ws, fn, pad, dirn, X, T, npar, ncx_c, is_static)
+        fl = EXT[X][1] == 'f' or MEM[T][2] == 'f'
+        js.append(Job('C09/' + fn, 'C09', ['src/drivers/common/ncx.m4'], hp, enforce=('ncx.c:' + fn) if is_static else fn,
+                      canaries=['noerr'] + (['erange'] if can_erange else []), unwind=NELEMS + 3, kind='bounded', bound='%d elements' % NELEMS,
+                      checks=['--conversion-check'] if fl else [], timeout=300, mem_gb=6, function_label=fn,
+                      arbiter=r'float to (signed|unsigned) integer type conversion'))
+    return js
